@@ -528,6 +528,16 @@ std::pair<void*,size_t> splinetable<Alloc>::write_fits_mem() const{
 template<typename Alloc>
 void splinetable<Alloc>::write_fits_core(fitsfile* fits) const{
 	int error = 0;
+	//fits_write_pix does not notice if (re)defining the structure of the
+	//current HDU fails, which can happen when memory for a memory 'file'
+	//cannot be obtained, and goes on to use uninitialized dimensions. Trigger
+	//the definition explicitly before each call, where its status is checked.
+	auto define_hdu=[&](){
+		int dim;
+		fits_get_img_dim(fits, &dim, &error);
+		if (error != 0)
+			throw std::runtime_error("Failed to define FITS HDU structure");
+	};
 	/*
 	 * Write the coefficients
 	 * Fits stores arrays in a sort-of Fortran-like way,
@@ -548,6 +558,7 @@ void splinetable<Alloc>::write_fits_core(fitsfile* fits) const{
 	
 		std::unique_ptr<long[]> fpixel(new long[ndim]);
 		std::fill_n(fpixel.get(),ndim,1L);
+		define_hdu();
 		fits_write_pix(fits, TFLOAT, fpixel.get(), nelements, &coefficients[0], &error);
 		if (error != 0)
 			throw std::runtime_error("Failed to write coefficients to FITS image");
@@ -608,6 +619,7 @@ void splinetable<Alloc>::write_fits_core(fitsfile* fits) const{
 			throw std::runtime_error("Failed to set knot vector EXTNAME");
 		
 		long pixel=1;
+		define_hdu();
 		fits_write_pix(fits, TDOUBLE, &pixel, axis, knots[i], &error);
 		if (error != 0)
 			throw std::runtime_error("Failed to write knot vector");
@@ -626,6 +638,7 @@ void splinetable<Alloc>::write_fits_core(fitsfile* fits) const{
 			throw std::runtime_error("Failed to set extents EXTNAME");
 		
 		long pixel=1;
+		define_hdu();
 		fits_write_pix(fits, TDOUBLE, &pixel, axis, extents[0], &error);
 		if (error != 0)
 			throw std::runtime_error("Failed to write extents");
